@@ -1,0 +1,8 @@
+// +build verif
+
+package miner
+
+// VerifGetSleepTime exposes getSleepTime to the verification harness.
+func (m *Miner) VerifGetSleepTime(mineHeight uint32, distance uint32, parentTime int64, currentTime int64) (int64, int64) {
+	return m.getSleepTime(mineHeight, distance, parentTime, currentTime)
+}
